@@ -331,5 +331,6 @@ pub fn moduli() -> Vec<(&'static str, refmodel::big::U)> {
         ("7", U::from_u64(7)),
         ("5", U::from_u64(5)),
         ("3", U::from_u64(3)),
+        ("2", U::from_u64(2)),
     ]
 }
